@@ -203,6 +203,12 @@ class SpanWrappingMatcher(wrappers.WrappingMatcher):
     def _replacement(self, newchild):
         return self.__class__(newchild)
 
+    def reset(self):
+        self.child.reset()
+        self._spans = None
+        if self.is_active():
+            self._find_next()
+
     def _find_next(self):
         if not self.is_active():
             return
